@@ -216,7 +216,7 @@ def gen_input(rng):
     z[0] = [v + 1e4 * sc for v in z[0]]     # very distant
   if rng.random() < 0.3:
     x[0] = list(z[0])
-  return dict(kind="kernel", cls=cls, hp=hp, x=x, z=z, life=rng.choice(["fresh", "fresh", "reassigned", "inplace"]), noise=[rng.choice([0.0, 1e-12, 1e-3, 1.0]) * hp[0] for _ in range(m)],
+  return dict(kind="kernel", cls=cls, hp=hp, x=x, z=z, life=rng.choice(["fresh", "fresh", "reassigned", "inplace", "readmod"]), noise=[rng.choice([0.0, 1e-12, 1e-3, 1.0]) * hp[0] for _ in range(m)],
               shift=[rng.uniform(-1, 1) * sc for _ in range(dim)])
 
 
